@@ -167,12 +167,20 @@ func (a *c05) events(fn *ssa.Function) []c05Event {
 				finish(in, rs.Call.Value, a.name(h))
 			}
 		case *ssa.Call:
-			s := staticCallee(x)
-			if s == nil {
-				return
-			}
-			if k, ok := a.starters[s]; ok && k < len(x.Call.Args) {
-				finish(in, x.Call.Args[k], a.name(s))
+			// static callee, or a statically known dynamic target (method value kept
+			// in a func-typed field / local, callback parameter)
+			for _, s := range a.calleesOf(x) {
+				k, ok := a.starters[s]
+				if !ok {
+					continue
+				}
+				shift := len(s.Params) - len(x.Call.Args) // bound receiver
+				if shift < 0 {
+					shift = 0
+				}
+				if k-shift >= 0 && k-shift < len(x.Call.Args) {
+					finish(in, x.Call.Args[k-shift], a.name(s))
+				}
 			}
 		}
 	})
